@@ -69,4 +69,6 @@ def anm_init(self: Obj('sempler.anm.ANM'), A: Arr2, assignments: Callables('assi
             all(node(self.ordering[k], A) for k in range(len(self.ordering))),
             all(implies(A[self.ordering[k], self.ordering[k2]] != 0, k < k2) for k in range(len(self.ordering)) for k2 in range(len(self.ordering))),
             len(self.assignments) == len(A), len(self.noise_distributions) == len(A))
+    # the callables are the model's own deep copies (stateful callable objects must not stay shared with the caller)
+    ensures(own_copies(self.assignments, assignments), own_copies(self.noise_distributions, noise_distributions))
     fresh(self.A, self.assignments, self.noise_distributions)
